@@ -77,6 +77,16 @@ func (k msgServer) RemoveRateLimit(goCtx context.Context, msg *types.MsgRemoveRa
 	}
 
 	k.Keeper.RemoveRateLimit(ctx, msg.Denom, msg.ChannelOrClientId)
+
+	// The flow is gone, so the pending markers that refer to it must go as well. Otherwise they
+	// would be applied to the flow of a rate limit added later for the same path.
+	if err := k.RemoveAllChannelPendingSendPackets(ctx, msg.ChannelOrClientId, msg.Denom); err != nil {
+		return nil, err
+	}
+	if err := k.RemoveAllChannelPendingReceivePackets(ctx, msg.ChannelOrClientId, msg.Denom); err != nil {
+		return nil, err
+	}
+
 	return &types.MsgRemoveRateLimitResponse{}, nil
 }
 
